@@ -55,6 +55,7 @@ def run(pid, tier, seed, t0, emits, level_rule):
             os.remove(res["cases_path"])
     # further families with exact expectations that do not come from the catalogue
     more = [("relpert", "Gen_RelPert", dict(SeedLo=1 + 300 * (seed % 7), SeedHi=(150 if tier == "quick" else 1500) + 300 * (seed % 7)), ["SignsStructural"])]
+    more.append(("relbig", "Gen_RelBig", dict(Sizes="{4, 66, 130, 1030, 2100, 4200}"), ["SmallAgrees"]))
     if pid == "C02":
         st = 8 if tier == "quick" else 1
         more.append(("segments", "Gen_Segments", dict(K=3, Stride=st, Offset=seed % st), ["RelLaws"]))
